@@ -48,6 +48,11 @@ type nonceFirst struct {
 	ts  int64
 	tol time.Duration
 	at  time.Time
+	// keepUntil mirrors what a nonce cache that survives reloads can still know: the entry lives until
+	// ts+tol, is prolonged when a reload raises the tolerance while it is still alive, and is forgotten
+	// (legitimately, this is the known finding) once any request was processed after that instant.
+	keepUntil time.Time
+	forgotten bool
 }
 
 func c09Text(r AuthRoute, variant string) string {
@@ -64,13 +69,13 @@ func genC09Case() *rapid.Generator[C09Case] {
 	return rapid.Custom(func(t *rapid.T) C09Case {
 		var c C09Case
 		c.Route = AuthRoute{Kind: "hmac", Secrets: []string{"k-one"}}
-		c.Route.TolS = rapid.SampledFrom([]int{1, 2, 30, 60, 0}).Draw(t, "tol")
+		c.Route.TolS = rapid.SampledFrom([]int{1, 2, 30, 60, 0, 0, 300}).Draw(t, "tol")
 		if rapid.IntRange(0, 3).Draw(t, "custom") == 0 {
 			c.Route.SigH, c.Route.TsH, c.Route.NonceH = "X-Hub-Sig", "X-Hub-Ts", "X-Hub-Nonce"
 		}
 		tol := int(c.Route.tol() / time.Second)
 		stepGen := rapid.Custom(func(t *rapid.T) C09Step {
-			k := rapid.SampledFrom([]string{"send", "send", "send", "replay", "replay", "replay", "resign", "badsig", "adv", "advto", "advto", "flood", "reload", "reload", "burst"}).Draw(t, "k")
+			k := rapid.SampledFrom([]string{"send", "send", "send", "replay", "replay", "replay", "replay", "resign", "badsig", "adv", "adv", "advto", "advto", "flood", "reload", "reload", "reload", "burst"}).Draw(t, "k")
 			s := C09Step{K: k}
 			switch k {
 			case "send", "burst":
@@ -84,18 +89,18 @@ func genC09Case() *rapid.Generator[C09Case] {
 				s.Ref = rapid.IntRange(0, 5).Draw(t, "ref")
 				s.Mode = rapid.SampledFrom([]string{"same-ts", "now-ts"}).Draw(t, "mode")
 			case "adv":
-				s.Ms = rapid.SampledFrom([]int{1, 500, 1000, 2000, 30000, 60000, 400000}).Draw(t, "ms")
+				s.Ms = rapid.SampledFrom([]int{1, 500, 1000, 1500, 2000, 30000, 45000, 60000, 90000, 400000}).Draw(t, "ms")
 			case "advto":
 				s.Ref = rapid.IntRange(0, 5).Draw(t, "ref")
 				s.DeltaNs = rapid.SampledFrom([]int{-1000000000, -1, 0, 0, 1, 1000000000}).Draw(t, "delta")
 			case "flood":
 				s.N = rapid.SampledFrom([]int{1, 10, 100, 100, 1000, 1500}).Draw(t, "n")
 			case "reload":
-				s.Mode = rapid.SampledFrom([]string{"same", "touch", "tol-down", "tol-up", "secret"}).Draw(t, "mode")
+				s.Mode = rapid.SampledFrom([]string{"same", "touch", "tol-down", "tol-up", "tol-up", "tol-up3", "secret"}).Draw(t, "mode")
 			}
 			return s
 		})
-		c.Steps = rapid.SliceOfN(stepGen, 2, 14).Draw(t, "steps")
+		c.Steps = rapid.SliceOfN(stepGen, 2, 18).Draw(t, "steps")
 		return c
 	})
 }
@@ -119,6 +124,12 @@ func runC09(c C09Case, tolerate bool) *fOutcome {
 	variant := ""
 
 	issue := func(step int, req FReq, ts int64, nonce string, record bool) (*verifkit.Failure, bool) {
+		for k, f := range first {
+			if k != nonce && !f.forgotten && w.clk.Now().After(f.keepUntil) {
+				f.forgotten = true
+				first[k] = f
+			}
+		}
 		rec := serve(w.ingress, req)
 		ok := rec.Code == 202
 		if record {
@@ -140,7 +151,7 @@ func runC09(c C09Case, tolerate bool) *fOutcome {
 					fl.Sig = "nonce-cache-reset-on-reload"
 				case now.Equal(time.Unix(f.ts, 0).Add(f.tol)):
 					fl.Sig = "nonce-expires-at-inclusive-boundary"
-				case out.Labels["tolerance-raised"] && now.After(time.Unix(f.ts, 0).Add(f.tol)):
+				case f.forgotten && out.Labels["tolerance-raised"] && now.After(time.Unix(f.ts, 0).Add(f.tol)):
 					fl.Sig = "nonce-forgotten-before-tolerance-raise"
 				}
 				return fl, true
@@ -148,7 +159,7 @@ func runC09(c C09Case, tolerate bool) *fOutcome {
 			out.Labels["unspecified-reuse-after-window"] = true
 			return nil, true
 		}
-		first[nonce] = nonceFirst{ts: ts, tol: curTol, at: now}
+		first[nonce] = nonceFirst{ts: ts, tol: curTol, at: now, keepUntil: time.Unix(ts, 0).Add(curTol)}
 		return nil, true
 	}
 	handle := func(f *verifkit.Failure) bool {
@@ -262,8 +273,11 @@ func runC09(c C09Case, tolerate bool) *fOutcome {
 						nr.TolS = 1
 					}
 				}
-			case "tol-up":
+			case "tol-up", "tol-up3":
 				nr.TolS = int(curTol/time.Second) * 2
+				if s.Mode == "tol-up3" {
+					nr.TolS = int(curTol/time.Second) * 3
+				}
 				out.Labels["tolerance-raised"] = true
 			case "secret":
 				nr.Secrets = append(append([]string(nil), nr.Secrets...), "k-two")
@@ -277,6 +291,14 @@ func runC09(c C09Case, tolerate bool) *fOutcome {
 			if !w.reload() {
 				out.Failure = ffail("HARNESS", "reload-failed", i, "reload of a valid config failed")
 				return out
+			}
+			if nt := route.tol(); nt > curTol {
+				for k, f := range first {
+					if !f.forgotten {
+						f.keepUntil = f.keepUntil.Add(nt - curTol)
+						first[k] = f
+					}
+				}
 			}
 			curTol = route.tol()
 			out.Labels["reload-between"] = true
@@ -309,7 +331,7 @@ func runC09(c C09Case, tolerate bool) *fOutcome {
 			accepted202 += n202
 			sent = append(sent, sentReq{req: req, ts: ts, nonce: nonce, accepted: n202 > 0})
 			if n202 > 0 {
-				first[nonce] = nonceFirst{ts: ts, tol: curTol, at: now}
+				first[nonce] = nonceFirst{ts: ts, tol: curTol, at: now, keepUntil: time.Unix(ts, 0).Add(curTol)}
 			}
 			out.Labels["burst"] = true
 			out.NonTriv = true
